@@ -1,6 +1,7 @@
 CONSTANTS MaxSteps = 3
           Shape = "focused"
-          SeedNames = {"num", "nan", "mixed", "dup"}
+          SeedNames = {"num", "nan", "mixed", "dup", "real"}
+          ErrOnly = {"real"}
           Hist = TRUE
 INIT Init
 NEXT Next
